@@ -27,6 +27,7 @@ import os
 import math
 import logging
 from hashlib import sha1
+from itertools import product
 from pathlib import Path
 
 import pyben
@@ -163,22 +164,30 @@ class PieceNode:
         bool
             success state
         """
-        if not paths:
-            piece_hash = sha1(data).digest()  # nosec
-            return piece_hash == self.piece
-        pathnode = paths[0]
-        filename = pathnode.filename
-        if filename not in filemap:
-            return False  # pragma: nocover
-        for loc, size in filemap[filename]:
-            if size != len(pathnode):
-                continue
-            partial = pathnode.get_part(loc)
-            val = self._find_matches(filemap, paths[1:], data + partial)
-            if val:
-                dest_path = os.path.join(self.dest, pathnode.full)
-                copypath(loc, dest_path)
-                return val
+        # every file of the piece has its own list of candidates; the
+        # combinations are tried in order without recursing once per file
+        # (a piece may span thousands of small files)
+        options = []
+        for pathnode in paths:
+            found = [
+                loc for loc, size in filemap.get(pathnode.filename, [])
+                if size == len(pathnode)
+            ]
+            if not found:
+                return False
+            options.append(found)
+        parts = {}
+        for combo in product(*options):
+            blob = bytearray(data)
+            for index, loc in enumerate(combo):
+                if (index, loc) not in parts:
+                    parts[(index, loc)] = paths[index].get_part(loc)
+                blob.extend(parts[(index, loc)])
+            if sha1(blob).digest() == self.piece:  # nosec
+                for pathnode, loc in zip(paths, combo):
+                    dest_path = os.path.join(self.dest, pathnode.full)
+                    copypath(loc, dest_path)
+                return True
         return False
 
     def find_matches(self, filemap: dict, dest: str) -> bool:
